@@ -160,8 +160,10 @@ JudgeReply(mm, e, M, at) ==
        LET prog == IF mm.shim = "default_init" /\ c.cb = "on_init" THEN <<[op |-> [op |-> "init_ok"], res |-> "ok", st |-> "i"]>> ELSE e.prog
            den == Denote(prog, e.bin, at)
            cmp == ResponseCmp(d.units, den.units, e.bin, at)
-       IN [done |-> TRUE, used |-> d.next - 1, floats |-> cmp.floats, lost |-> FALSE,
-           viol |-> SeqViol(M, d.next - 1, e.seq, at) \cup den.viol \cup cmp.viol]
+           misuse == \E x \in den.viol : x.p = "MISUSE"
+       IN IF misuse THEN [done |-> TRUE, used |-> 0, floats |-> << >>, lost |-> TRUE, viol |-> {}]
+          ELSE [done |-> TRUE, used |-> d.next - 1, floats |-> cmp.floats, lost |-> FALSE,
+                viol |-> SeqViol(M, d.next - 1, e.seq, at) \cup den.viol \cup cmp.viol]
 
 RECURSIVE Consume(_, _, _, _)
 \* mm: monitor state, v: violations, at: trace position, strict: every answered command must be complete
@@ -189,6 +191,9 @@ Consume(mm, v, at, strict) ==
       [m |-> mm, v |-> v]
     ELSE IF e.st = "ret" /\ e.cls.cb \in {"on_query", "on_execute"} /\ ~ProgStarted(e.prog) THEN
       \* writer dropped without ever starting anything: outside the properties
+      [m |-> [mm EXCEPT !.free = TRUE], v |-> v]
+    ELSE IF e.st = "ret" /\ e.cls.cb \in {"on_query", "on_execute"} /\ (\E x \in Denote(e.prog, e.bin, at).viol : x.p = "MISUSE") THEN
+      \* row writer dropped with a partial, contradicting row (a drop cannot refuse): shim misuse, not judged
       [m |-> [mm EXCEPT !.free = TRUE], v |-> v]
     ELSE LET r == Messages(mm.ob)
              j == JudgeReply(mm, e, r.msgs, at)
